@@ -25,6 +25,9 @@ struct Body<'s> {
     closures: Vec<Value>,
     macros: Vec<Value>,
     combinators: Vec<Value>,
+    /// every statement of every block of the body: (block ordinal in visit order, index in the block, byte span)
+    stmts: Vec<Value>,
+    block_no: usize,
 }
 
 /// does the expression contain `?` or `return` outside nested closures? (then it cannot be inlined)
@@ -40,6 +43,14 @@ impl<'ast> Visit<'ast> for Esc {
     }
 }
 impl<'ast, 's> Visit<'ast> for Body<'s> {
+    fn visit_block(&mut self, b: &'ast syn::Block) {
+        let me = self.block_no;
+        self.block_no += 1;
+        for (i, st) in b.stmts.iter().enumerate() {
+            self.stmts.push(json!({"block": me, "idx": i, "span": rj(st.span())}));
+        }
+        syn::visit::visit_block(self, b);
+    }
     fn visit_expr_for_loop(&mut self, e: &'ast syn::ExprForLoop) {
         self.loops.push(json!({"kind":"for","span":rj(e.span()),"body_start":r(e.body.span()).0,
             "pat":rj(e.pat.span()),"expr":rj(e.expr.span())}));
@@ -138,7 +149,7 @@ impl<'s> Ix<'s> {
         p.join("::")
     }
     fn push_fn(&mut self, path: String, whole: Span, attrs: &[syn::Attribute], vis: Option<&syn::Visibility>, sig: &syn::Signature, block: &syn::Block) {
-        let mut b = Body { src: self.src, loops: vec![], closures: vec![], macros: vec![], combinators: vec![] };
+        let mut b = Body { src: self.src, loops: vec![], closures: vec![], macros: vec![], combinators: vec![], stmts: vec![], block_no: 0 };
         b.visit_block(block);
         let (ws, we) = r(whole);
         let after_attrs = match vis {
@@ -155,7 +166,7 @@ impl<'s> Ix<'s> {
         self.items.push(json!({"kind":"fn","path":path,"span":[ws,we],"attrs":attrs_json(attrs,self.src),
             "after_attrs":after_attrs,"sig":rj(sig.span()),"ret":ret,"body":[bs,be],"inputs":inputs,
             "name": sig.ident.to_string(),
-            "loops":b.loops,"closures":b.closures,"macros":b.macros,"combinators":b.combinators}));
+            "loops":b.loops,"closures":b.closures,"macros":b.macros,"combinators":b.combinators,"stmts":b.stmts}));
     }
     fn push_simple(&mut self, kind: &str, name: String, whole: Span, attrs: &[syn::Attribute], after_attrs: usize, extra: Value) {
         let path = self.pfx(&name);
